@@ -51,6 +51,9 @@ func Unquote(types ...string) Option {
 func unquote(s string) (string, error) {
 	quote := s[0]
 	s = s[1 : len(s)-1]
+	if quote == '`' {
+		return s, nil
+	}
 	out := ""
 	for s != "" {
 		value, _, tail, err := strconv.UnquoteChar(s, quote)
